@@ -723,8 +723,10 @@ def lenM (v : V) : R (UInt16 × V) :=
       pure (n + lv + lm, .obj "MatchField" [c, f, .num hm, l, .num eid, val, mask])
   | _ => .panic
 
-/-- the ExperimenterID is counted by Len() but never written; an error of a payload encoder would be returned
-    together with the data (no payload kind has one) -/
+/-- `if m.ExperimenterID != 0 { PutUint32(data[n:], m.ExperimenterID); n += 4 }` -/
+def eidPieces (eid : V) : List Piece := if eid.asNat = 0 then [] else [pU32 eid.asNat]
+
+/-- an error of a payload encoder would be returned together with the data (no payload kind has one) -/
 def marshalM (v : V) : R (Bytes × V) := do
   let (l, v) ← lenM v
   match v with
@@ -732,11 +734,11 @@ def marshalM (v : V) : R (Bytes × V) := do
     let fld : UInt8 := if hm = 0 then shl8 (n8 f) 1 else shl8 (n8 f) 1 ||| 1
     let (vb, val) ← MatchPayload.marshalM val
     if hm = 0 then do
-      let bs ← fill l.toNat [pU16 c, .put [fld], pU8 ln, pCopy vb]
+      let bs ← fill l.toNat ([pU16 c, .put [fld], pU8 ln] ++ eidPieces eid ++ [pCopy vb])
       pure (bs, .obj "MatchField" [.num c, .num f, .num hm, .num ln, eid, val, mask])
     else do
       let (mb, mask) ← MatchPayload.marshalM mask
-      let bs ← fill l.toNat [pU16 c, .put [fld], pU8 ln, pCopy vb, pCopy mb]
+      let bs ← fill l.toNat ([pU16 c, .put [fld], pU8 ln] ++ eidPieces eid ++ [pCopy vb, pCopy mb])
       pure (bs, .obj "MatchField" [.num c, .num f, .num hm, .num ln, eid, val, mask])
   | _ => .panic
 
